@@ -1618,7 +1618,10 @@ impl<'a> UserModel<'a> {
         };
 
         // If the pasted area is smaller than the selected area we increase it
-        let [row_start, column_start, row_end, column_end] = range;
+        // (the corners of the selected range come in any order)
+        let [row1, column1, row2, column2] = range;
+        let (row_start, row_end) = (row1.min(row2), row1.max(row2));
+        let (column_start, column_end) = (column1.min(column2), column1.max(column2));
         let last_row = row_end.max(row_start + styles_height - 1);
         let last_column = column_end.max(column_start + styles_width - 1);
 
